@@ -224,6 +224,25 @@ impl<'tcx, 'a> Cx<'tcx, 'a> {
                 let _ = write!(extra, ",{{\"int\":{}}}", esc(&val));
             }
         }
+        // string constants: evaluate (also associated consts like `<T as Request>::METHOD`) and give the text
+        if extra.is_empty() {
+            if let ty::Ref(_, inner, _) = ty.kind() {
+                if inner.is_str() && !matches!(c, Const::Unevaluated(uv, _) if { use rustc_middle::ty::TypeVisitableExt; uv.args.has_non_region_param() }) {
+                    if let Ok(v) = c.eval(self.tcx, TypingEnv::post_analysis(self.tcx, self.def), rustc_span::DUMMY_SP) {
+                        match v {
+                            rustc_middle::mir::ConstValue::Slice { .. } | rustc_middle::mir::ConstValue::Indirect { .. } => {
+                                if let Some(bytes) = v.try_get_slice_bytes_for_diagnostics(self.tcx) {
+                                    if let Ok(st) = std::str::from_utf8(bytes) {
+                                        let _ = write!(extra, ",{{\"str\":{}}}", esc(st));
+                                    }
+                                }
+                            }
+                            _ => {}
+                        }
+                    }
+                }
+            }
+        }
         format!("[\"c\",{},{}{}]", esc(&tys(ty)), esc(&text), extra)
     }
 
@@ -464,6 +483,50 @@ fn dump_fn<'tcx>(tcx: TyCtxt<'tcx>, ldid: rustc_hir::def_id::LocalDefId, out: &m
                 firstu = false;
                 let _ = write!(out, "[{},{}]", esc(&vdi.name.to_string()), cx.place(p));
             }
+        }
+    }
+    out.push_str("],\"promoted\":[");
+    // promoted constants (`&"shutdown"` etc.): list the constant operands of each promoted body
+    if !matches!(dk, DefKind::Closure) || true {
+        let proms = tcx.promoted_mir(def);
+        for (pi, pb) in proms.iter_enumerated() {
+            if pi.as_usize() > 0 {
+                out.push(',');
+            }
+            out.push('[');
+            let pcx = Cx { tcx, body: pb, def, fn_file: fn_file.clone() };
+            let mut firstc = true;
+            for pbb in pb.basic_blocks.iter() {
+                for st in pbb.statements.iter() {
+                    if let StatementKind::Assign(b) = &st.kind {
+                        let (_, r) = &**b;
+                        let mut ops: Vec<&Operand<'tcx>> = vec![];
+                        match r {
+                            Rvalue::Use(o, ..) | Rvalue::Cast(_, o, _) | Rvalue::Repeat(o, _) | Rvalue::UnaryOp(_, o) => ops.push(o),
+                            Rvalue::BinaryOp(_, ab) => {
+                                ops.push(&ab.0);
+                                ops.push(&ab.1);
+                            }
+                            Rvalue::Aggregate(_, os) => {
+                                for o in os.iter() {
+                                    ops.push(o);
+                                }
+                            }
+                            _ => {}
+                        }
+                        for o in ops {
+                            if let Operand::Constant(_) = o {
+                                if !firstc {
+                                    out.push(',');
+                                }
+                                firstc = false;
+                                out.push_str(&pcx.operand(o));
+                            }
+                        }
+                    }
+                }
+            }
+            out.push(']');
         }
     }
     out.push_str("],\"bbs\":[");
